@@ -133,8 +133,9 @@ impl Square {
     /// See [`Square::offset`]'s panics.
     #[inline(always)]
     pub const fn try_offset(self, file_offset: i8, rank_offset: i8) -> Option<Square> {
-        let file_index = self.file() as i8 + file_offset;
-        let rank_index = self.rank() as i8 + rank_offset;
+        // Widened so that extreme offsets can't overflow
+        let file_index = self.file() as i16 + file_offset as i16;
+        let rank_index = self.rank() as i16 + rank_offset as i16;
         if file_index < 0 || file_index >= 8 || rank_index < 0 || rank_index >= 8 {
             return None;
         }
